@@ -7,6 +7,7 @@ import ConduitModel.Driver.Live
 import ConduitModel.Driver.Errs
 import ConduitModel.Driver.Egress
 import ConduitModel.Driver.ErrPaths
+import ConduitModel.Driver.AckErr
 import ConduitModel.Driver.Registry
 import ConduitModel.Driver.Codec
 import ConduitModel.Driver.Lifecycle
@@ -36,11 +37,13 @@ def component (name : String) : Option (String → String) :=
   | "errsite" => some errsiteLine
   | "egress" => some egressLine
   | "workernack" => some workernackLine
+  | "ackerr" => some ackerrLine
   | "b64" => some b64Line
   | "jsonstr" => some jsonstrLine
   | "storedoc" => some storedocLine
   | "golden" => some goldenLine
   | "pre041" => some pre041Line
+  | "oldstore" => some oldstoreLine
   | "resume" => some resumeLine
   | "pathclean" => some pathcleanLine
   | "extract" => some extractLine
